@@ -16,12 +16,19 @@ HAZ = {
     "misc": ["+1", "-x", "#hash", ">x", "1.x", "[", "]", "[x]", "[ ]", "<", "&", "&amp;", "_", "__", "~", "\\", "`", "!", "*x", "x*", "_y", "y_"],
 }
 CJK = ["中文", "日本語abc", "abc漢字", "漢"]
+QUOTES = ['"quoted', 'phrase"', "'single", "q'", '"word"', "'w'", "it's", "Jones'", 'x="foo"', "x='y'", '\\"esc\\"', "\\'e\\'", '—"dash"', '"a', 'b",',
+          '("paren")', '"end."', "'tis", "rock'n'roll", '""', "''", '"', "'", 'say:"x"', '"q"?', "’already’", "“curly”", "don't", "dogs'", "'90s", '"Hello,"',
+          '"`code`"', "'*em*'", '"[l](u)"', '**"bold"**', '"{{ v }}"', "{% t a='b' %}'s"]
+DOTS = ["...", "wait...", "...and", "a...b", "....", "..", "x....y", "end...", '"...', '..."', "...,", "(...)", "...)", "1...", "…", "word…", "... ...", "......",
+        "`...`", "[...](u)", "*...*", "-...", "...!", "...?"]
 
 def words(feat):
     pools = [st.sampled_from(PLAIN), st.sampled_from(PLAIN), st.sampled_from(SENT_END)]
     for k, v in HAZ.items():
         if "haz_" + k in feat: pools.append(st.sampled_from(v))
     if "cjk" in feat: pools.append(st.sampled_from(CJK))
+    if "quotes" in feat: pools += [st.sampled_from(QUOTES)] * 3
+    if "dots" in feat: pools += [st.sampled_from(DOTS)] * 3
     return st.one_of(pools)
 
 def phrase(feat, lo=1, hi=4):
@@ -49,7 +56,9 @@ def atoms(feat):
     if "html" in feat:
         a += [st.sampled_from(["<b>", "</b>", "<br/>", '<span class="a b">', "</span>", '<a href="x y" title=\'t u\'>', "<!-- a comment here -->", "<!--c-->", "<x-y z>"])]
     if "tags" in feat:
-        a += [st.sampled_from(["{% tag %}", "{% /tag %}", '{% field kind="string" id="a b" %}', "{% field %}{% /field %}", "{{ var }}", "{{ a | f('x y') }}", "{# a comment #}", "{%- trim -%}", "{% a %}{% b %}", "<!-- f:x --><!-- /f -->"])]
+        a += [st.sampled_from(["{% tag %}", "{% /tag %}", '{% field kind="string" id="a b" %}', "{% field %}{% /field %}", "{{ var }}", "{{ a | f('x y') }}", "{# a comment #}", "{%- trim -%}", "{% a %}{% b %}", "<!-- f:x --><!-- /f -->",
+                              '{% note "hello there" %}', "{# it's a \"comment\" here #}", "<!-- don't \"touch\" this... -->", '{{ "x" }}', "{{ 'y' }}", "{% if a == 'b c' %}",
+                              "{% t ... %}", "<!-- wait... -->"])]
     if "escape" in feat:
         a += [st.sampled_from(["\\*", "\\_", "1\\.", "\\#", "\\-", "\\>", "\\[x\\]", "\\`", "\\\\", "a\\*b", "\\|", "\\<b\\>", "\\&amp;"])]
     if "fnref" in feat: a += [st.just("[^fn1]"), st.just("[^nofn]")]
